@@ -406,7 +406,7 @@ def main():
                 w = None
                 if ok:
                     fake = {'full': 'undecided', 'fn': None, 'kind': 'undecided'}
-                    if pid in ('C01', 'C02', 'C05', 'C06', 'C07', 'C08', 'C10', 'C11', 'C12', 'C19'):
+                    if pid in ('C01', 'C02', 'C05', 'C06', 'C07', 'C08', 'C10', 'C11', 'C12', 'C13', 'C19'):
                         w = witness.gen_refmodel(pid, fake)
                     if w is None and pid in ('C05',):
                         w = witness.gen_clock(pid, fake)
@@ -414,6 +414,8 @@ def main():
                         w = witness.gen_conc_store(pid, fake) or (witness.gen_steps_lin(pid, fake) if pid == 'C03' else None)
                     if w is None and pid in ('C09', 'C10', 'C12', 'C13', 'C18'):
                         w = witness.gen_framing(pid, fake) or witness.gen_sock(pid, fake)
+                    if w is None and pid in ('C18', 'C12'):
+                        w = witness.gen_sock_faults(pid, fake)
                     if w is None and pid in ('C15', 'C14'):
                         w = witness.gen_policy(pid, fake)
                     if w is None and pid in ('C16',):
@@ -449,7 +451,7 @@ def main():
             thorough['selftest_error'] = repr(e)
         # (b) run-time twin of the property statements against the unchanged real code (consistency of the
         #     specification vocabulary with the code; DESIGN section 7)
-        if pid in ('C01', 'C02', 'C05', 'C06', 'C07', 'C08', 'C11', 'C12', 'C19'):
+        if pid in ('C01', 'C02', 'C05', 'C06', 'C07', 'C08', 'C11', 'C12', 'C13', 'C19'):
             try:
                 import replaytool, refmodel
                 ok, err = replaytool.build_replay_bin()
@@ -469,6 +471,16 @@ def main():
                 if w: undecided.append('step-level schedule grid: %s (although every obligation is discharged or known)' % w['what'])
             except Exception as e:
                 thorough['step_level_schedules_error'] = repr(e)
+        if pid == 'C18':
+            try:
+                import replaytool, witness
+                ok, err = replaytool.build_replay_bin()
+                if ok:
+                    w = witness.gen_sock_faults(pid, {'full': 'server/client'})
+                    thorough['socket_faults'] = {'bounded': 'stream of 4 requests cut at frame boundaries +-1 / inside headers, corrupted magic after 1-3 complete requests, ten faulted connections in a row; a second connection observes', 'scenarios': witness.gen_sock_faults.last_count, 'mismatch': (w or {}).get('what')}
+                    if w: undecided.append('socket fault twin disagrees with the real server although every obligation is discharged: %s' % w['what'][:300])
+            except Exception as e:
+                thorough['socket_faults_error'] = repr(e)
         if pid == 'C05':
             try:
                 import replaytool, witness
